@@ -6,6 +6,7 @@ import (
 	"fmt"
 	"math"
 	"math/big"
+	"os"
 	"strings"
 	"time"
 
@@ -35,6 +36,8 @@ type etxModel struct {
 	kind  string // ETX | CONVERT | CALL-external | lockup-claim | lockup-unwrap
 	tx    *types.Transaction
 	debit *big.Int // what the operation states it takes from a Quai balance (value + prepaid fee); zero for lockup kinds
+	value *big.Int // Quai the recorded ETX carries out of this ledger; zero for lockup kinds
+	cond  string   // the harness's own reading of the operation's arguments ("ok", "overflow-wrapped", ...)
 }
 
 type sdModel struct {
@@ -134,6 +137,7 @@ type tracer struct {
 	failed    map[string]int // failure kind -> count
 	injected  bool
 	burnAtEnd *big.Int // balances still held by self-destructed accounts when the top frame ends
+	zeroAtEnd *big.Int // balance of the zero address when the top frame ends (inbound ETXs run out of it)
 	touched   []common.Address
 	slotsSeen map[common.AddressBytes]map[common.Hash]bool
 	counts    map[string]int
@@ -223,6 +227,7 @@ func (t *tracer) CaptureEnd(output []byte, gasUsed uint64, _ time.Duration, err 
 		}
 	}
 	t.frames = t.frames[:0]
+	t.zeroAtEnd = new(big.Int).Set(t.st.GetBalance(mustInternal(zeroAddr)))
 	for _, a := range t.w.known {
 		if ia := mustInternal(a); t.st.HasSuicided(ia) {
 			t.burnAtEnd.Add(t.burnAtEnd, t.st.GetBalance(ia))
@@ -288,6 +293,9 @@ func (t *tracer) CaptureFault(env *vm.EVM, pc uint64, op vm.OpCode, gas, cost ui
 	f := t.frames[depth-1]
 	f.fail = classify(err)
 	t.pend[depth] = nil
+	if debugSteps {
+		fmt.Printf("fault depth=%d %s: %v\n", depth, op, err)
+	}
 }
 
 func (t *tracer) CaptureState(env *vm.EVM, pc uint64, op vm.OpCode, gas, cost uint64, scope *vm.ScopeContext, rData []byte, depth int, err error, _ common.Location) {
@@ -305,6 +313,9 @@ func (t *tracer) CaptureState(env *vm.EVM, pc uint64, op vm.OpCode, gas, cost ui
 	f := t.frames[depth-1]
 	idx := len(t.steps)
 	t.steps = append(t.steps, stepRec{depth, gas, op})
+	if debugSteps {
+		fmt.Printf("step %d depth=%d pc=%d %s gas=%d err=%v self=%x\n", idx, depth, pc, op, gas, err, scope.Contract.Address().Bytes()[18:])
+	}
 	if err != nil { // the operation is not executed: the frame dies here
 		f.fail = classify(err)
 		return
@@ -442,6 +453,8 @@ func (t *tracer) violate(prop, class, witness, format string, args ...any) {
 
 type violation struct{ prop, class, witness, detail string }
 
+var debugSteps = os.Getenv("EVMSIM_DEBUG") != ""
+
 // resolve reads the outcome of operation o at the next step of its frame and runs the per-operation oracles.
 func (t *tracer) resolve(o *opRec, scope *vm.ScopeContext, child *frame) {
 	stack := scope.Stack.Data()
@@ -573,6 +586,9 @@ func (t *tracer) resolve(o *opRec, scope *vm.ScopeContext, child *frame) {
 	switch o.kind {
 	case "ETX", "CONVERT":
 		cond, total, value, gl := t.outCond(o)
+		if newEtx == 1 { // recorded: it leaves with the block if the frame survives, whatever else is wrong
+			f.etxs = append(f.etxs, &etxModel{kind: o.kind, tx: etx, debit: total, value: etx.Value(), cond: cond})
+		}
 		if !heightOK {
 			t.violate("C05", "op-atomicity", out("no-status-word", cond), "stack height %d before, %d after (the operation pops %d and must push 1): debit %v, new ETXs %d", o.stackLen, len(stack), o.pops, debit, newEtx)
 		}
@@ -589,7 +605,6 @@ func (t *tracer) resolve(o *opRec, scope *vm.ScopeContext, child *frame) {
 					etype = types.ConversionType
 				}
 				checkEtx(cond, etype, o.target, value, &g)
-				f.etxs = append(f.etxs, &etxModel{kind: o.kind, tx: etx, debit: total})
 			}
 		} else {
 			if debit.Sign() != 0 && newEtx == 0 {
@@ -604,6 +619,9 @@ func (t *tracer) resolve(o *opRec, scope *vm.ScopeContext, child *frame) {
 	case "CALL-external":
 		value := o.args[2].ToBig()
 		cond := "dest=" + map[bool]string{true: "local-qi", false: "other-chain"}[common.IsInChainScope(o.target.Bytes(), loc)]
+		if newEtx == 1 {
+			f.etxs = append(f.etxs, &etxModel{kind: o.kind, tx: etx, debit: value, value: etx.Value()})
+		}
 		if status == "1" {
 			switch {
 			case newEtx != 1:
@@ -616,12 +634,14 @@ func (t *tracer) resolve(o *opRec, scope *vm.ScopeContext, child *frame) {
 					etype = types.ConversionType
 				}
 				checkEtx(cond, etype, o.target, value, nil)
-				f.etxs = append(f.etxs, &etxModel{kind: o.kind, tx: etx, debit: value})
 			}
 		} else if debit.Sign() != 0 || newEtx != 0 {
 			t.violate("C05", "op-atomicity", out("effects-without-success", cond), "failed call out of scope: debit %v, new ETXs %d", debit, newEtx)
 		}
 	case "CALL-lockup":
+		if newEtx == 1 {
+			f.etxs = append(f.etxs, &etxModel{kind: "lockup", tx: etx, debit: new(big.Int), value: new(big.Int)})
+		}
 		switch len(o.mem) {
 		case 53:
 			lockPost := ""
@@ -637,7 +657,6 @@ func (t *tracer) resolve(o *opRec, scope *vm.ScopeContext, child *frame) {
 					t.violate("C05", "op-atomicity", out("claim-without-delete", "fn=claim-coinbase"), "status 1 but the lockup record is still %s", lockPost)
 				default:
 					checkEtx("fn=claim-coinbase", types.CoinbaseLockupType, common.BytesToAddress(o.mem[20:40], loc), t.w.seeds[o.lockSeed].balance, &gl)
-					f.etxs = append(f.etxs, &etxModel{kind: "lockup-claim", tx: etx, debit: new(big.Int)})
 					f.claims++
 				}
 			} else if newEtx != 0 || lockPost != o.lockPre {
@@ -656,7 +675,6 @@ func (t *tracer) resolve(o *opRec, scope *vm.ScopeContext, child *frame) {
 					t.violate("C05", "op-atomicity", out("debit-mismatch", "fn=unwrap-qi"), "wrapped balance debited %v, value %v", wdebit, value)
 				default:
 					checkEtx("fn=unwrap-qi", types.UnwrapQiType, common.BytesToAddress(o.mem[:20], loc), value, &gl)
-					f.etxs = append(f.etxs, &etxModel{kind: "lockup-unwrap", tx: etx, debit: new(big.Int)})
 				}
 			} else if newEtx != 0 || wdebit.Sign() != 0 {
 				t.violate("C05", "op-atomicity", out("effects-without-success", "fn=unwrap-qi"), "failed unwrap: new ETXs %d, wrapped balance debit %v", newEtx, wdebit)
